@@ -20,7 +20,7 @@ UNITS = [
     # K01: helpers used by the Verus tier through assumed contracts
     dict(unit="K01.set_scope", harness="k01_set_scope", tags=["C05", "C19"], quick=True, complete=False,
          bound="3 items, every ledger (Unparsed/Conflict/Parsed)^3, every scope and every new scope"),
-    dict(unit="K01.adjacently_available_from", harness="k01_adjacently_available_from", tags=["C19"], quick=True, complete=False,
+    dict(unit="K01.adjacently_available_from", harness="k01_adjacently_available_from", tags=["C19", "C07"], quick=True, complete=False,
          bound="3 items, every ledger, every scope, every start"),
     dict(unit="K01.adjacent_scope", harness="k01_adjacent_scope", tags=["C19"], quick=True, complete=False,
          bound="2 states of 3 items, every pair of ledgers and scopes"),
@@ -49,6 +49,8 @@ UNITS = [
          bound="2 items from {-a, -b, word} with every ledger; std::env::var_os nondeterministic"),
     dict(unit="K14.first_line_two_tokens", harness="k14_first_line_two_tokens", tags=["C12", "C04"], quick=False, complete=False,
          bound="two Text tokens over 2+2 ASCII bytes"),
+    dict(unit="K14.first_line_three_tokens", harness="k14_first_line_three_tokens", tags=["C12", "C04"], quick=False, complete=False,
+         bound="three Text tokens of one ASCII byte each"),
     # K08 / K09: documentation leaves
     dict(unit="K09.change_style_all_pairs", harness="k09_change_style_all_pairs", tags=["C16"], quick=True, complete=True,
          features="docgen", bound="all 8 x 8 style pairs (loop free, full domain)"),
